@@ -192,6 +192,25 @@ class Frame:
         return False
 
 
+_quant_cache: Dict[int, bool] = {}
+
+
+def has_quant(e) -> bool:
+    """Does the formula contain a quantifier or lambda?  (Such facts are left out of the fast feasibility solver.)"""
+    seen = set()
+    stack = [e]
+    while stack:
+        x = stack.pop()
+        i = x.get_id()
+        if i in seen:
+            continue
+        seen.add(i)
+        if z3.is_quantifier(x):
+            return True
+        stack.extend(x.children())
+    return False
+
+
 class State:
     def __init__(self, trace, fuc_name, cfg):
         self.trace = list(trace)
@@ -292,7 +311,20 @@ class State:
             return
         c = self.cond(c)
         self.pc.append(c)
-        self.solver.add(c)
+        self.sadd(c)
+
+    def sadd(self, c):
+        # the incremental solver only prunes infeasible branches; quantified facts are left out (over-approximation:
+        # at worst an infeasible path is explored, and its obligations are then discharged from the full pc)
+        if not has_quant(c):
+            self.solver.add(c)
+
+    def consistent(self, timeout_ms=1500) -> bool:
+        s = z3.Solver()
+        s.set("timeout", timeout_ms)
+        for a in self.pc:
+            s.add(a)
+        return s.check() != z3.unsat
 
     def assume_wt(self, v: SV):
         tt = T.strip_opt(v.ty)
@@ -312,7 +344,7 @@ class State:
         self.obligations.append(ob)
         if not z3.is_true(g):
             self.pc.append(g)  # assert-then-assume
-            self.solver.add(g)
+            self.sadd(g)
 
     def feasible(self, c) -> bool:
         r = self.solver.check(c)
@@ -347,10 +379,10 @@ class State:
         k = self.choose(2, [c, z3.Not(c)])
         if k == 0:
             self.pc.append(c)
-            self.solver.add(c)
+            self.sadd(c)
             return True
         self.pc.append(z3.Not(c))
-        self.solver.add(z3.Not(c))
+        self.sadd(z3.Not(c))
         return False
 
     # -- well-typedness predicate of a Val term for a hint (shallow)
